@@ -189,6 +189,7 @@ def main():
     if not ck.build():
         ck.finish()
     ck.check_props()
+    ck.check_translation("pstring")
     cases = []
     corpus = [([[1, 0, "X"], [1, 0, "Z"]], [[1, 0, "X"], [1, 0, "Z"]]), ([[1, 0, "I"], [2, 0, "I"]], [[1, 0, "I"]]), ([[1, 0, "X"], [-1, 0, "X"]], [[0, 0, "Z"]])]
     for a, b in corpus:
